@@ -23,36 +23,7 @@ func C20(p *core.Program, r *core.Report) {
 	r.NotCovered = "the metamorphic equalities themselves (result equals that of the page with the subtrees deleted / markers renamed); what the regular expressions match; marked elements swallowed whole by figure/table extraction."
 
 	// ---- F1
-	ec := mustFunc(p, r, "F1", "(*"+extractorPkg+".ContentExtractor).ExtractContent")
-	if ec != nil {
-		opts := core.DecisionOpts{ResolvePhis: true, Outcome: func(in ssa.Instruction, c *core.Canon) (string, bool) {
-			if ret, ok := in.(*ssa.Return); ok && len(ret.Results) == 2 {
-				return "return " + c.Of(ret.Results[0]) + " , " + c.Of(ret.Results[1]), true
-			}
-			return "", false
-		}}
-		paths, atoms, err := core.EnumerateDecisions(p, ec, opts)
-		if err != nil {
-			r.Undecided("F1", "ExtractContent", err.Error())
-		}
-		cr := func(flag string) string {
-			return `extractor.ContentExtractor.createWebDocumentInfoFromPage($0,converter.` + flag + `)`
-		}
-		pd := func(doc string) string { return `extractor.ContentExtractor.processDocument($0,` + doc + `)` }
-		spec := core.DecisionSpec{
-			Atoms: map[string]string{
-				"first.pass.below.500": q(pd(cr("SkipUnlikelies")) + ` <= 499`),
-			},
-			Rules: []core.SpecRule{
-				{Name: "fewer than 500 words: second pass without pruning", Guard: core.A("first.pass.below.500"), Outcome: "return " + cr("Default") + " , " + pd(cr("Default"))},
-				{Name: "enough words: pruned result", Guard: core.True(), Outcome: "return " + cr("SkipUnlikelies") + " , " + pd(cr("SkipUnlikelies"))},
-			},
-		}
-		core.CheckDecisionList(r, "F1", "ExtractContent", paths, atoms, spec)
-		// no extra branch may influence the choice: exactly the documented atom (other conditions
-		// would make the choice depend on something else)
-		r.Add("F1", "ExtractContent: the word-count threshold is the only branch", p.Pos(ec.Pos()), len(atoms) == 1, fmt.Sprintf("branch conditions: %v", keys(atoms)))
-	}
+	checkTwoPassSkeleton(p, r, "F1")
 
 	// ---- F2
 	cw := mustFunc(p, r, "F2", "(*"+extractorPkg+".ContentExtractor).createWebDocumentInfoFromPage")
@@ -196,4 +167,40 @@ func globalReaders(p *core.Program, pkgPath, name string) []string {
 		out = append(out, k)
 	}
 	return out
+}
+
+// checkTwoPassSkeleton: ExtractContent returns document and word count of the same pass; the
+// second pass (Default) is taken iff the first (SkipUnlikelies) yields <= 499 words.
+func checkTwoPassSkeleton(p *core.Program, r *core.Report, rule string) {
+	ec := mustFunc(p, r, rule, "(*"+extractorPkg+".ContentExtractor).ExtractContent")
+	if ec != nil {
+		opts := core.DecisionOpts{ResolvePhis: true, Outcome: func(in ssa.Instruction, c *core.Canon) (string, bool) {
+			if ret, ok := in.(*ssa.Return); ok && len(ret.Results) == 2 {
+				return "return " + c.Of(ret.Results[0]) + " , " + c.Of(ret.Results[1]), true
+			}
+			return "", false
+		}}
+		paths, atoms, err := core.EnumerateDecisions(p, ec, opts)
+		if err != nil {
+			r.Undecided(rule, "ExtractContent", err.Error())
+		}
+		cr := func(flag string) string {
+			return `extractor.ContentExtractor.createWebDocumentInfoFromPage($0,converter.` + flag + `)`
+		}
+		pd := func(doc string) string { return `extractor.ContentExtractor.processDocument($0,` + doc + `)` }
+		spec := core.DecisionSpec{
+			Atoms: map[string]string{
+				"first.pass.below.500": q(pd(cr("SkipUnlikelies")) + ` <= 499`),
+			},
+			Rules: []core.SpecRule{
+				{Name: "fewer than 500 words: second pass without pruning", Guard: core.A("first.pass.below.500"), Outcome: "return " + cr("Default") + " , " + pd(cr("Default"))},
+				{Name: "enough words: pruned result", Guard: core.True(), Outcome: "return " + cr("SkipUnlikelies") + " , " + pd(cr("SkipUnlikelies"))},
+			},
+		}
+		core.CheckDecisionList(r, rule, "ExtractContent", paths, atoms, spec)
+		// no extra branch may influence the choice: exactly the documented atom (other conditions
+		// would make the choice depend on something else)
+		r.Add(rule, "ExtractContent: the word-count threshold is the only branch", p.Pos(ec.Pos()), len(atoms) == 1, fmt.Sprintf("branch conditions: %v", keys(atoms)))
+	}
+
 }
